@@ -98,6 +98,10 @@ ATOMS = {
     'TupUU': (U.TupUU, lambda x, tower=False: isinstance(x, tuple) and len(x) == 2 and isinstance(x[0], int) and isinstance(x[1], str)),
     'InitI': (U.InitI, _inst(int)),
     'FinI': (U.FinI, _inst(int)),
+    'GRegI': (U.GReg[int], lambda x, tower=False: isinstance(x, U.GReg) and all(isinstance(k, int) and isinstance(v, U.GL) and all(isinstance(i, str) for i in v)
+                                                                                for k, v in x.items()), _inst(U.GReg)),
+    'GOutI': (U.GOut[int], lambda x, tower=False: isinstance(x, U.GOut) and all(isinstance(v, U.GL) and all(isinstance(i, str) for i in v) for v in x),
+              _inst(U.GOut)),
     'list_': (list, _inst(list)),      # unsubscripted builtin containers as plain classes
     'dict_': (dict, _inst(dict)),
     'tuple_': (tuple, _inst(tuple)),
@@ -110,7 +114,7 @@ def _alr(x, quant, depth=0):
 
 
 ATOM_SRC = {
-    'Hashable': 'cabc.Hashable', 'Sized': 'typing.Sized', 'Callable_': 'cabc.Callable', 'LStr': 'typing.LiteralString',
+    'GRegI': 'GReg[int]', 'GOutI': 'GOut[int]', 'Hashable': 'cabc.Hashable', 'Sized': 'typing.Sized', 'Callable_': 'cabc.Callable', 'LStr': 'typing.LiteralString',
     'SupportsInt': 'typing.SupportsInt', 'AnyStr': 'typing.AnyStr', 'Type_': 'typing.Type', 'Tuple_': 'typing.Tuple', 'List_': 'typing.List',
     'Dict_': 'typing.Dict',
     'none': 'None', 'NoneType': 'type(None)', 'any': 'typing.Any', 'list_': 'list', 'dict_': 'dict', 'tuple_': 'tuple',
@@ -317,7 +321,7 @@ def has_sampling(t) -> bool:
     (sequence-like or quasi-iterable)?  Used only for the 'at most one draw' count (C02/O4)."""
     tag = t[0]
     if tag == 'a':
-        return t[1] in ('NL', 'TL', 'ALgi', 'ALr')
+        return t[1] in ('NL', 'TL', 'ALgi', 'ALr', 'GRegI', 'GOutI')
     if tag == 'lit':
         return False
     if tag == 'u':
